@@ -313,6 +313,13 @@ example : ∃ taken consumed, [Ev.chunk [0x21, 0x01], .chunk [0xee, 0x07]] = tak
         pollNext frameDec {} [Ev.chunk [0x21, 0x01], .chunk [0xee, 0x07]] =
           (.pending, { buf := [[0x07]], expected := some 2 }, [])) rfl)
 
+-- model fidelity after an error (not part of the property; `frame.rs` resets `expected` when
+-- it skips an unknown frame, also when the next frame is then an error): a repeated call
+-- repeats the error instead of answering `Pending` from a stale memo
+example : (pollNext frameDec (pollNext frameDec
+      { buf := [[0x21, 0x00, 0x02, 0x00]], expected := some 4 } []).2.1 []).1 =
+    .errProto (.unsupported 2) := by decide +kernel
+
 /-! ## 4. Truncation is reported, and nothing waits for ever after FIN -/
 
 /-- Liveness half: once `fin` has been consumed no call answers `Pending`. -/
